@@ -81,6 +81,19 @@ theorem unterminated_is_error (query : Bool) (q : UInt8) (hq : q = 34 ∨ q = 39
       rw [this body h]; omega
     simp only [this, if_false]
 
+/-- a String item that starts at a `"` or `'` spans at least the two quotes, stays inside the
+input and its last byte is the quote: the lexer never returns a String for a literal that is
+cut off by the end of the input -/
+theorem string_token_closed (query : Bool) (q : UInt8) (hq : q = 34 ∨ q = 39) (body t : Bytes) (n : Nat)
+    (h : next query (q :: body) = (⟨"String", t⟩, n)) :
+    2 ≤ n ∧ n ≤ body.length + 1 ∧ (q :: body).getD (n - 1) 0 = q := by
+  apply quotedString_closed q hq body t n
+  rcases hq with rfl | rfl
+  · unfold next at h; simpa [rd] using h
+  · unfold next at h; simpa [rd] using h
+
+example : next false [39, 97, 92, 39, 39, 120] = (⟨"String", [97, 39]⟩, 5) := by decide
+
 -- non-vacuity: the input of finding 6, `"abc\n` (escape, no closing quote)
 example : next false [34, 97, 98, 99, 92, 110] = (⟨"Error", msgQuote⟩, 6) := by decide
 
